@@ -85,6 +85,16 @@ def conc_rounds(rnd, n):
     for _ in range(n):
         s = rnd.choice(['a', 'b', 'n'])
         nw, threads = 0, []
+        if len(out) % 5 == 4:
+            # other services are being written while this one is read: service `a` is registered once and never touched again; three
+            # writers hammer services b and n; the readers' Check / Watch of `a` answer with its status, whatever happens next door.
+            # (the history is projected onto `a` before the linearizability search)
+            threads.append([{'op': 'set', 's': 'a', 'v': 1, 'w': 0}, {'op': 'barrier', 's': '', 'v': 0, 'w': 0}] + [{'op': 'check', 's': 'a', 'v': 0, 'w': 0}] * 10)
+            threads.append([{'op': 'barrier', 's': '', 'v': 0, 'w': 0}, {'op': 'watch_retry', 's': 'a', 'v': 1, 'w': 1}, {'op': 'next', 's': '', 'v': 0, 'w': 1}] + [{'op': 'check', 's': 'a', 'v': 0, 'w': 0}] * 6)
+            for t in range(3):
+                threads.append([{'op': 'barrier', 's': '', 'v': 0, 'w': 0}] + [{'op': 'set', 's': ('b', 'n')[(t + k) % 2], 'v': k % 3, 'w': 0} for k in range(40)])
+            out.append({'class': 'conc_other_services_written', 'threads': threads, 'epilogue': [{'op': 'check', 's': 'a', 'v': 0, 'w': 0}], 'project': 'a'})
+            continue
         if rnd.random() < 0.5:
             for _t in range(rnd.randint(3, 4)):
                 threads.append([{'op': 'set', 's': s, 'v': rnd.randint(0, 2), 'w': 0}])
@@ -119,6 +129,26 @@ def conc_rounds(rnd, n):
 LIN_CLAUSE = 'C18.HistoryIsAnInterleavingOfAtomicOperations'
 
 
+def _project(run):
+    """rounds with stim.project = <service>: keep the calls (and their returns) on that service and on its watchers only"""
+    svc = run[0].get('stim', {}).get('project') if run else None
+    if not svc:
+        return run
+    out, open_call = [], {}
+    for e in run:
+        if e.get('e') == 'call':
+            keep = e.get('sn') == svc or e.get('op') == 'next'
+            open_call[e.get('t')] = keep
+            if keep:
+                out.append(e)
+        elif e.get('e') == 'ret':
+            if open_call.get(e.get('t'), True):
+                out.append(e)
+        else:
+            out.append(e)
+    return out
+
+
 def concurrent_part(verdict, cov, tag, tier, seed):
     """Concurrent writers / watchers: call-ret histories from (a) deterministic preemption rounds and (b) the multi-threaded
     runtime must be linearizable against Health.tla (Trace_HealthLin)."""
@@ -134,7 +164,7 @@ def concurrent_part(verdict, cov, tag, tier, seed):
             if end and end[0].get('outcome') != 'ok':
                 verdict.add(f'{label}:{"NoPanic" if end[0]["outcome"] == "panic" else "NoHang"}:{r[0]["stim"].get("class")}',
                             f'run {r[0].get("run")} ended with {end[0]}', replay_rows=r)
-        good = [r for r in runs if not any(e.get('e') == 'end' and e.get('outcome') != 'ok' for e in r)]
+        good = [_project(r) for r in runs if not any(e.get('e') == 'end' and e.get('outcome') != 'ok' for e in r)]
         st = core.lin_validate(verdict, good, 'Trace_HealthLin', 'Trace_HealthLin.cfg', tag, label, LIN_CLAUSE)
         st['preempted_ops'] = sum(1 for s in stims for t in s.get('tasks', []) for o in t if o.get('burn', 0) >= 124)
         st['stream_ends_observed'] = sum(1 for e in ev if e.get('e') == 'ret' and e['res'].get('r') == 'end')
